@@ -102,6 +102,7 @@ func (p *Prog) InlineHelpers(noInline map[string]bool) (inlined []string, remove
 			}
 			if changed {
 				changedAny = true
+
 				var buf bytes.Buffer
 				if e := ssa.FinishInlining(f, &buf); e != nil {
 					return inlined, removed, fmt.Errorf("%v: %s", e, buf.String())
@@ -163,7 +164,34 @@ func (p *Prog) InlineHelpers(noInline map[string]bool) (inlined []string, remove
 		}
 		keep = append(keep, f)
 	}
+	// closures whose every creation site has been inlined away no longer exist in the variant
+	made := map[*ssa.Function]bool{}
+	for _, f := range keep {
+		for _, b := range f.Blocks {
+			for _, ins := range b.Instrs {
+				if mc, ok := ins.(*ssa.MakeClosure); ok {
+					made[mc.Fn.(*ssa.Function)] = true
+				}
+			}
+		}
+	}
+	var keep2 []*ssa.Function
+	for _, f := range keep {
+		if f.Parent() != nil && !made[f] {
+			// (a closure is only ever referenced through a MakeClosure instruction)
+			{
+				if p.removed == nil {
+					p.removed = map[*ssa.Function]bool{}
+				}
+				p.removed[f] = true
+				continue
+			}
+		}
+		keep2 = append(keep2, f)
+	}
+	keep = keep2
 	p.Funcs = keep
+	p.computeAddrTaken()
 	p.ByKey = map[string]*ssa.Function{}
 	for _, f := range p.Funcs {
 		p.ByKey[p.Key(f)] = f
